@@ -732,10 +732,10 @@ def shapes(tier, seed):
                          dict(kind="adapt", cfg=dict(mapping=mp, utd=utd, picks=picks)), modules=MODS, group="length/adapt"))
     # canary twins: wrong spec (sign-flipped final vector / flipped occupation bit) must be refuted and replayed
     for kind, (cfg, n, occ) in first_canary.items():
-        if kind in ("qmf",):
-            t = ("+" * n, "-" * n, "s" + "+" * (n - 1))
-        else:
-            t = ("+" * n, "-" * n, "+" * n)
+        t = ("+" * n, "-" * n, "+" * n)
+        if kind == "uccgd":
+            # one symbolic component, the others concrete: keeps the refutation cheap for the solver
+            t = ("p" * n, "p" * n, "+" + "p" * (n - 1))
         if kind in ("qcc", "ilc"):
             # the leading QMF angles do not reach the circuit: flip a generator amplitude instead
             t = ("+" * n, "-" * n, "0" * (n - 1) + "+")
